@@ -111,9 +111,9 @@ func VC02Carriers() {
 	carrier := vrt.ChooseStr("carrier", c02Carriers)
 	// (the quick tier's shapes are a prefix of the full list, so that a shape
 	// index means the same operand in both tiers)
-	shapes := []MemSpec{{Base: "BX"}, {}, {Base: "EBP", Index: "EDI", Scale: 8}, {Base: "BP", Index: "SI"}, {Base: "EBX"}, {Base: "ESP"}, {Index: "EAX", Scale: 4}}
+	shapes := []MemSpec{{Base: "BX"}, {}, {Base: "EBP", Index: "EDI", Scale: 8}, {Index: "ESI", Scale: 4}, {Base: "EAX", Index: "EAX"}, {Base: "BP", Index: "SI"}, {Base: "EBX"}, {Base: "ESP"}, {Index: "EAX", Scale: 4}}
 	if vrt.Param("allregs") == 0 {
-		shapes = shapes[:3]
+		shapes = shapes[:5]
 	}
 	m := shapes[vrt.Choose("shape", len(shapes))]
 	m = displacement(m)
